@@ -73,7 +73,7 @@ CHECKS = {
              "compiled scanners (4 back ends, %pointer/%array, small buffers, several sources) running generated action programs are "
              "compared event by event (rule, yyleng, hash of yytext, yyinput values). yyunput on the buffer as addresses (coq/Unput.v): "
              "C08_unput_overlapping_move_is_right, C08_unput_pushes_in_front, C08_unput_overflow_exact, C08_unput_stays_inside, "
-             "C08_unputs_then_rescanned; compiled scanners on a grid of (back end, buffer size, bytes buffered, token offset, number of "
+             "C08_unputs_then_rescanned, C08_unput_after_scan_bytes_overflows; compiled scanners on a grid of (back end, buffer size, bytes buffered, token offset, number of "
              "unputs) stop with 'push-back overflow' exactly when the model does and rescan the model's unread bytes. "
              "The tie of the C code to the models is differential.",
         design="DESIGN.md section 6 C08", technique="machine-checked laws of an executable specification (Rocq) + differential event streams"),
@@ -101,7 +101,7 @@ CHECKS = {
              "unread input, BOL status and line number), C11_switch_and_back_resumes, C11_scan_gives_exactly_the_bytes, "
              "C11_push_pop_returns, C11_flush_keeps_unread_file_text, C11_pop_in_yywrap_leaves_others / C11_pop_in_yywrap_resumes (yypop_buffer_state() from yywrap()). Histories of 10-60 operations (to stack depth > 9) are replayed "
              "against non-reentrant, reentrant (per-buffer yylineno) and c99 scanners and compared token by token (labelled with the "
-             "buffer) with the extracted model; yy_scan_buffer is probed with unterminated buffers. The buffer stack as an array with a capacity (coq/StackGrow.v): C11_stack_index_inside_the_array (EVERY history of pushes and pops keeps the index of the current buffer inside the allocated array), C11_push_makes_current, C11_pop_returns_to_the_buffer_below, C11_push_is_cons (refinement to a list); (top, capacity) after every operation of generated histories is compared with yy_buffer_stack_top / yy_buffer_stack_max of compiled scanners.",
+             "buffer) with the extracted model; yy_scan_buffer is probed with unterminated buffers. The buffer stack as an array with a capacity (coq/StackGrow.v): C11_stack_index_inside_the_array (EVERY history of pushes and pops keeps the index of the current buffer inside the allocated array), C11_push_makes_current, C11_pop_returns_to_the_buffer_below, C11_push_is_cons and C11_pop_is_tail (refinement to a list); in-memory buffers (coq/Unput.v): C11_scan_bytes_holds_its_bytes, C11_scan_buffer_needs_two_sentinels; (top, capacity) after every operation of generated histories is compared with yy_buffer_stack_top / yy_buffer_stack_max of compiled scanners.",
         design="DESIGN.md section 6 C11", technique="machine-checked proof (Rocq) of buffer independence + differential histories"),
     "C12": dict(
         text="PARTIAL. Rocq theorems (coq/Isolation.v): C12_interleaving_independent and C12_schedules_equivalent - in a system whose "
